@@ -39,7 +39,13 @@ LINES = {
     "convbad": dict(kind="convbad", sym=""),
     "cond": dict(kind="cond", sym=""),
     "nest": dict(kind="nest", sym=""),
+    # lines that USE the custom unit [len] defined earlier in the same text
+    "useu": dict(kind="useu", sym=""),
+    "nestu": dict(kind="nestu", sym=""),
+    "condu": dict(kind="condu", sym=""),
+    "boolu": dict(kind="boolu", sym=""),
 }
+NEEDS_LEN = ("useu", "nestu", "condu", "boolu")
 BASE = {"m": ["k", "m"], "mol": [], "[c]": []}
 
 
@@ -191,9 +197,47 @@ def render_dip(text):
             lines += [f'@case ("1 m == 100 cm")', f"  k{j} int = 1", "@end"]
         elif ln["kind"] == "nest":
             lines.append(f'e{j} float = ("2 m + 1 m") m')
+        elif ln["kind"] == "useu":
+            lines += [f"u{j} float = 3 [len]", f"u{j} = 1 m"]
+        elif ln["kind"] == "nestu":
+            lines += [f"w{j} float = 2 [len]", f'e{j} float = ("{{?w{j}}} + 4 m") [len]']
+        elif ln["kind"] == "condu":
+            lines += [f"w{j} float = 23 [len]", f'@case ("{{?w{j}}} > 1 m")', f"  k{j} int = 1", "@else", f"  k{j} int = 2", "@end"]
+        elif ln["kind"] == "boolu":
+            lines += [f"w{j} float = 23 [len]", f'b{j} bool = ("{{?w{j}}} > 1 m")', f'd{j} bool = ("{{?w{j}}} < 1 mm")']
         else:
             lines.append(f"$unit q{j} = abc m")        # float('abc') raises inside the scope body
     return "\n".join(lines) + "\n"
+
+
+def dip_values_wrong(text, env):
+    """Values of the nodes that use [len] (first definition wins: `$unit len = <2+j> m`)."""
+    L = None
+    for j, ln in enumerate(text):
+        if ln["kind"] == "unit" and ln["sym"] == "[len]" and L is None:
+            L = 2 + j
+    data = env.data(verbose=False) if False else env.data()
+    def num(k):
+        v = data[k]
+        return float(getattr(v, "value", v))
+    for j, ln in enumerate(text):
+        exp = {}
+        if ln["kind"] == "useu":
+            exp[f"u{j}"] = 1.0 / L
+        elif ln["kind"] == "nestu":
+            exp[f"e{j}"] = 2 + 4.0 / L
+        elif ln["kind"] == "condu":
+            exp[f"k{j}"] = 1
+        elif ln["kind"] == "boolu":
+            exp[f"b{j}"] = True; exp[f"d{j}"] = False
+        for k, want in exp.items():
+            try:
+                got = data[k] if isinstance(want, bool) else num(k)
+            except Exception as e:
+                return ({k: f"{type(e).__name__}: {e}"}, {k: want})
+            if (isinstance(want, bool) and bool(got) is not want) or (not isinstance(want, bool) and abs(got - want) > 1e-9):
+                return ({k: repr(got)}, {k: want})
+    return None
 
 
 def replay_hist(hist):
@@ -220,12 +264,27 @@ def replay_hist(hist):
                 h, units, mags = handles.pop()
                 h.close()
             elif op["op"] == "dip":
+                denv = None
                 try:
                     with DIP() as p:
                         p.add_string(render_dip(op["arg"]))
-                        p.parse()
-                except Exception:
+                        denv = p.parse()
+                except Exception as e:
                     res = "fail"
+                    dip_error = f"{type(e).__name__}: {str(e)[:160]}"
+                uses = [ln["kind"] for ln in op["arg"] if ln["kind"] in NEEDS_LEN]
+                if uses and op["res"] == "ok":
+                    # "usable inside the scope": the text defines [len] before using it, so the parse must succeed
+                    # and the nodes must have the values that the definition of [len] gives them
+                    if res == "fail":
+                        restore(base)
+                        return ("violation", {"step": n + 1, "op": "dip", "arg": op["arg"], "clause": "a custom unit defined by the DIP text is not usable inside the parse",
+                                              "observed": {"error": dip_error}, "expected": {"parse": "ok"}, "res": res})
+                    bad = dip_values_wrong(op["arg"], denv)
+                    if bad:
+                        restore(base)
+                        return ("violation", {"step": n + 1, "op": "dip", "arg": op["arg"], "clause": "a node that uses the custom unit of the DIP text does not have the value its definition gives",
+                                              "observed": bad[0], "expected": bad[1], "res": res})
             o = observe(base)
             exp = op["expect"]
             want_custom = sorted(exp["custom"])
@@ -399,17 +458,20 @@ def run(replay=None):
                                                                                            ("INT",), ("X", "INT"), ("T2", "INT"), ("X", "Y", "INT")]
         tx = dip_texts(2, ["len", "c", "use", "bad", "conv", "convbad", "cond", "nest"]) + [("len", "c", "use"), ("len", "len", "use"), ("c", "len", "bad"), ("len", "use", "bad"), ("len", "bad", "use")] + \
              [("len", "wid", "c", "use"), ("len", "c", "wid", "bad"), ("len", "c", "convbad"), ("len", "wid", "nest"), ("len", "cond", "convbad"), ("len", "conv", "c", "use")]
+        tx += [("len", "useu"), ("len", "nestu"), ("len", "condu"), ("len", "boolu"), ("useu",), ("nestu",), ("condu",), ("wid", "nestu"),
+               ("len", "wid", "nestu"), ("len", "condu", "nestu"), ("len", "nestu", "boolu", "useu"), ("len", "bad", "nestu"), ("len", "useu", "convbad")]
         tx = sorted(set(tx))
         ul3 = [("X",), ("Y",), ("X", "Y"), ("Y", "M"), ("X", "OL"), ("T",), ("T2",), ("TB",), ("T2", "M"), ("XK", "Y"), ("Y", "BAD"), ("X", "INT")]
-        tx3 = [("len", "use"), ("len", "c", "use"), ("len", "bad"), ("c", "len", "use"), ("len", "convbad"), ("len", "nest")]
+        tx3 = [("len", "use"), ("len", "c", "use"), ("len", "bad"), ("c", "len", "use"), ("len", "convbad"), ("len", "nest"), ("len", "nestu"), ("len", "condu")]
     else:
         # (all 3-unit lists over 8 descriptors x all texts of 4 lines squared exhausts memory: 2.6 M behaviours)
         ul = unit_lists(2, ["X", "Y", "M", "OL", "T", "T2", "TB", "BAD", "BADP", "XK"]) + unit_lists(3, ["X", "M", "T", "OL"]) + unit_lists(2, ["X", "T2", "INT"])
         ul = sorted(set(ul))
         tx = sorted(set(dip_texts(2, ["len", "wid", "c", "use", "bad", "conv", "convbad", "cond", "nest"]) + dip_texts(3, ["len", "c", "use", "bad", "convbad"])
-                        + dip_texts(4, ["len", "c", "use"])))
+                        + dip_texts(4, ["len", "c", "use"]) + dip_texts(2, ["len", "wid", "useu", "nestu", "condu", "boolu"])
+                        + [("len",) + x for x in dip_texts(2, ["useu", "nestu", "condu", "boolu", "bad", "c"])]))
         ul3 = unit_lists(1, ["X", "Y", "M", "OL", "T", "T2", "TB", "BAD", "INT"]) + unit_lists(2, ["X", "Y", "M", "T"]) + [("X", "OL"), ("T2", "M"), ("XK", "Y"), ("Y", "BAD"), ("X", "INT")]
-        tx3 = dip_texts(1, ["len", "c", "use", "convbad", "nest"]) + dip_texts(2, ["len", "c", "use"]) + [("len", "convbad"), ("len", "nest"), ("len", "c", "use"), ("c", "len", "bad")]
+        tx3 = dip_texts(1, ["len", "c", "use", "convbad", "nest"]) + dip_texts(2, ["len", "c", "use"]) + [("len", "convbad"), ("len", "nest"), ("len", "c", "use"), ("c", "len", "bad"), ("len", "nestu"), ("len", "condu"), ("len", "boolu"), ("nestu",)]
     # A: every unit list / text, behaviours of 2 calls; B: a core subset, behaviours of 3 calls (deeper nesting)
     open(os.path.join(wd, "UnitEnvMC.tla"), "w").write(mc_module(ul, tx, True, 2))
     r = C.run_tlc(wd, "UnitEnvMC", MC_CFG.format(emit="INVARIANT EmitInv"), coverage=False)
